@@ -32,7 +32,7 @@ def scenarios(ctx):
                   ("request.header.a", True), ("request.body", False)]:
         steps.append({"op": "new", "variable": v, "supported": ok})
     out.append({"id": "variables", "cfg": {}, "steps": steps})
-    for i in range(6 if quick else 60):
+    for i in range(6 if quick else 400):
         steps = []
         pool = [("v4", rand_v4(rng), "") for _ in range(6)] + [("v6", rand_v6(rng), "") for _ in range(6)]
         pool += [("v6zone", "fe80::%x:%x" % (rng.randint(1, 0xffff), rng.randint(1, 0xffff)), rng.choice(["eth0", "en1", "3", "vEthernet (x)"])) for _ in range(4)]
